@@ -581,4 +581,11 @@ Lemma element_copies_otherwise (st : store) (sp : tspace) (id : nat) w l o :
   = Ok (OpTens sp (length st), st ++ [cast_arr cast (ts_dt sp) (rd st id)]).
 Proof. intros Hs Hc. unfold t_element_lay. rewrite Hs, Hc. reflexivity. Qed.
 
+(* x.ufuncs.add(y, out=(o,)) = x.ufuncs.add(y, out=o) = np.add(x, y, out=o): the
+   tuple form of out is the bare form *)
+Lemma legacy_out_tuple_form (NP : npsem) (st : store) sp m ins kw (o : option operand) :
+  legacy_tens_call cast V NP st sp m ins kw (LTuple [o]) = legacy_tens_call cast V NP st sp m ins kw (LOne o)
+  /\ legacy_tens_call cast V NP st sp m ins kw (LOne o) = tens_ufunc NP st sp 1 m ins kw [o].
+Proof. split; reflexivity. Qed.
+
 End Proofs.
